@@ -489,7 +489,7 @@ func (e *env) queryState(rng *rand.Rand, exhaustive bool) {
 	e.tips()
 	e.unknownHash(rng)
 	// windows whose start or length lies at or beyond the 32-bit limits
-	for _, hc := range [][2]int{{1 << 31, 3}, {1<<31 - 1, 3}, {1 << 32, 3}, {1<<32 + 1, 2}, {1, 1<<32 + 1}, {0, 1 << 31}, {2, 1<<31 + 2}, {1 << 40, 1 << 33}} {
+	for _, hc := range [][2]int{{0, -1}, {1, -1}, {tip, -3}, {tip, -1 << 31}, {-1, 3}, {-1 << 31, 5}, {1 << 31, 3}, {1<<31 - 1, 3}, {1 << 32, 3}, {1<<32 + 1, 2}, {1, 1<<32 + 1}, {0, 1 << 31}, {2, 1<<31 + 2}, {1 << 40, 1 << 33}} {
 		if e.failed {
 			return
 		}
@@ -560,7 +560,7 @@ func (e *env) queryState(rng *rand.Rand, exhaustive bool) {
 }
 
 func body(r *ev.Run) {
-	r.Rule("states = end (after a restart in a quarter of them), one mid-history point and half of the reorganisation points of seeded random histories (forks of any depth, several stale branches, orphan chains, late parents, reorganisations, zero-work headers). Plus long stores (prefix of 800/1500/30 headers, then a reorganisation over 700/520/2050 heights) queried by sample. Small states (<=12 headers): ALL queries — every hash for header/state, every ordered pair for ancestors, every multiset of size <=3 for common ancestor, every (height,count) window over -1..max+2 x 0..5, windows whose start or length is 2^31-1 / 2^31 / 2^32 / 2^32+1 / 2^40; large states (up to 120 headers): seeded samples. Oracle = reference model with weakest readings (by-height: subset of stored-in-window and superset of longest-in-window; ancestors: contains every strictly-between header, nothing off the path, no duplicates, endpoints optional, order free; unrelated headers => never 200; common ancestor asserted for lists with minimum height >= 1). Headers-table digest compared around reads. evaluations = states queried; distinct = distinct (endpoint, relation/state class) cells; non-trivial = all.")
+	r.Rule("states = end (after a restart in a quarter of them), one mid-history point and half of the reorganisation points of seeded random histories (forks of any depth, several stale branches, orphan chains, late parents, reorganisations, zero-work headers). Plus long stores (prefix of 800/1500/30 headers, then a reorganisation over 700/520/2050 heights) queried by sample. Small states (<=12 headers): ALL queries — every hash for header/state, every ordered pair for ancestors, every multiset of size <=3 for common ancestor, every (height,count) window over -1..max+2 x 0..5, windows with a negative start or length, windows whose start or length is 2^31-1 / 2^31 / 2^32 / 2^32+1 / 2^40; large states (up to 120 headers): seeded samples. Oracle = reference model with weakest readings (by-height: subset of stored-in-window and superset of longest-in-window; ancestors: contains every strictly-between header, nothing off the path, no duplicates, endpoints optional, order free; unrelated headers => never 200; common ancestor asserted for lists with minimum height >= 1). Headers-table digest compared around reads. evaluations = states queried; distinct = distinct (endpoint, relation/state class) cells; non-trivial = all.")
 	r.Assume("reference model transcribes the statement", "queries whose hash-linked ancestry crosses a parent stored after its child are skipped (stored heights unrelated; statement silent)", "5xx on degenerate arguments are C16's subject, not asserted here")
 	r.Require("ancestors_descendant", 200)
 	r.Require("ancestors_unrelated-equal-height", 20)
